@@ -105,7 +105,13 @@ func msgClass(s string) string {
 	if len(s) > 100 {
 		s = s[:100]
 	}
-	return s
+	b := []byte(s)
+	for i, c := range b {
+		if c < 0x20 || c > 0x7e {
+			b[i] = '?'
+		}
+	}
+	return string(b)
 }
 
 // repoFrames extracts the innermost simdjson-go frame from the current stack (call inside a deferred recover).
